@@ -17,6 +17,10 @@ CLAIMS = {
   text="Lean 4 theorems about the model of jose.parseCompacted + jwt.NewVerifier / GetVerifier + didsignjwt key resolution + the signature verifiers, for every token text, header and set of produced signatures: an accepted attached token is character for character <signed message>.<base64url(signature)> of a signature the holder of the resolved key produced over exactly that message, with a procedure of the algorithm named in the header, under a key of that algorithm's type (C08_sound_attached, C08_token_is_signed_text, C08_no_malleability, sigVerify_sound, verify_sound, resolve_exact); algorithms outside the table (none, HS256, other spellings) are refused by every signature-checking entry (C08_unknown_alg, famOf_none); an empty signature never verifies (sigVerify_empty). Base64url model of encoding/base64: round trip for every byte string, canonical decoding is injective, the lenient decoder is malleable (B64.decodeLenient_encode, decodeCanon_injective, lenient_malleable_*). Tie: correspondence of the four real entry points on hand-built, mutated and crossed tokens (all algorithms, key types, raw/JWK methods, attached/detached/b64=false) with the compiled model run on the very token text, the Spec column re-checking the theorem's conclusion on every accepted token; random strings tie the base64 model to the standard library",
   note="trusted: Lean kernel; allowed axioms; ideal signatures (only produced tuples verify; ECDSA (r,n-s) twin outside the model); Lean.Json for header parsing; DER ECDSA signatures accepted by design; completeness (honest tokens accepted) is checked by correspondence only",
   technique="Lean 4 soundness proof of the parse/verify decision logic + base64url model + token-level correspondence"),
+ "C17": dict(
+  text="Lean 4 theorems: (bookkeeping, core Lean) for every message count below 2^16 and every strictly ascending revealed index list below it, the payload DeriveProof writes is read back by VerifyProof as the same count and the same indexes whatever follows it (C17_payload, via the bit-level invariant bitvector_testBit and sorted_ext); the code as written binds the i-th handed message to the i-th disclosed index and ignores whatever follows the disclosed count (verifyOutcome_iff), so a vector of exactly the disclosed length is accepted iff it is the disclosed vector (C17_exact_length: changed / reordered / shifted refused), a shorter one is refused (C17_dropped_refused), an index beyond the count is refused (C17_index_in_range), and a SUPPLEMENTED vector is accepted (C17_F1_supplemented_accepted - the open finding as a theorem). (group side, Mathlib, abstract K-module) what DeriveProof computes satisfies both equations VerifyProof checks for every message count and every revealed set (vc1_complete, vc2_complete), the pairing check holds because A-bar = x.A' (abar_is_x_aprime), and for one proof and one non-zero challenge the second equation leaves no freedom in the disclosed messages when the generators are linearly independent (vc2_binds_disclosed). Tie: correspondence of the real primitive and tinkcrypto service (all subsets for small n, random up to 65 messages, ten kinds of altered verifier input, double verification) with the compiled model, incl. the exact payload bytes",
+  note="trusted: Lean kernel; allowed axioms; ideal proof system for the negative cases (soundness under discrete log and random-oracle challenge is assumed, not proved); IBM/mathlib curve arithmetic; credential-level reveal frames not driven here. Open finding C17-F1 (supplemented vector accepted) is reported as KNOWN-FINDING: existing unit tests and the LEGACY-prefix wrapper rely on it",
+  technique="Lean 4 bit-level codec proof + abstract-module completeness/binding proof (Mathlib) + correspondence"),
  "C14": dict(
   text="Lean 4 theorems: for routing-key chains of every length, unwrapping by the mediators in order hands exactly the packed original to the recipient key and each mediator reads only the previous key and an envelope packed for that key (nest_snoc, C14_view, C14_unwrap); nobody holding none of the recipient keys - any coalition of all mediators - can obtain the application message from what is sent (C14_opaque, with C14_recipient_reads as non-vacuity); for every history of keylist updates / forwards / pickups from any number of clients the route table maps a key to its most recent registrant (C14_route_table), a forward goes to, or is held for, exactly that client (C14_forward_registered, C14_held_there, C14_held_only_there) and an unregistered key is refused without effect (C14_forward_unregistered). Tie: correspondence of the real outbound dispatcher + packagers (own KMS per agent) + real mediator and messagepickup services per hop, over five media-type profiles, all key types, chains 0..6, with the compiled term-level model and the closed-form contract",
   note="trusted: Lean kernel; allowed axioms; symbolic encryption (C01/C02 carry the cryptographic half); recording bus; handlers driven synchronously through verif hooks; route table modelled as written (last writer wins, remove unimplemented - design remarks, not counted as violations)",
